@@ -24,6 +24,7 @@ import (
 	"tunnox-core/internal/packet"
 	"tunnox-core/internal/protocol/adapter"
 	"tunnox-core/internal/stream"
+	"tunnox-core/internal/verifhook"
 	"tunnox-core/verifsim/simnet"
 	"tunnox-core/verifsim/simnode"
 	"tunnox-core/verifsim/simrt"
@@ -85,7 +86,7 @@ func init() {
 			"command packets over all command types; gzip-flagged bodies: valid, garbage, concatenated members, truncated trailer, bad CRC, 1-4 MiB of zeros and (1 run in 50) a bomb inflating to 24-80 MiB (256 MiB in thorough); " +
 			"adversarial length fields 0/1/2^31/2^32-1/max-1/max/max+1/12*max with a short body; raw random bytes; floods of up to 800 empty five-byte packets; bit-flipped frames; 1 run in 8 carries bodies of 1-16 MiB), a truncation offset, " +
 			"the transport segmentation law of the server's reads, how the stream ends (half-close, close, reset, 10 minute stall then close), the transport of the served connection (plain stream with up to 3 injected transient read timeouts, or in 1/3 of the serve runs the real WebSocket wrapper over a real gorilla connection: stream sent as split/merged binary messages mixed with text messages, pings, unsolicited pongs, mid-stream close frames and illegal frames; the peer does or does not answer the server's pings; ends with or without a close frame or goes silent past every transport timeout; in 1/12 of the WebSocket runs the peer finally sends ONE binary message of 16 (legal), 64 or 160 MiB (400 MiB in thorough) in 1-8 frames whose payload is synthesised inside the server's own link Read so that the peer side allocates nothing), pauses between segments, optionally a legitimate second client, a first-connect by the hostile peer, and storage errors (k-th operation or 1/8 of operations fail). " +
-			"Non-trivial: the real decoder/dispatcher actually consumed at least one segment that is not a well-formed request (the server read past its first byte, or HandlePacket was called with it), or the server consumed an illegal/unexpected WebSocket frame, or a deaf WebSocket peer stayed silent past the transport timeouts; distinct = distinct schedule hashes of such runs.",
+			"1 decode run in 32 is a cost probe instead (thousands of minimal packets - heartbeats, empty packets, one-byte bodies - in one or four WebSocket messages or a plain stream, at n and 8n bytes; the bulk byte moves of the two decodes are compared). Non-trivial: the real decoder/dispatcher actually consumed at least one segment that is not a well-formed request (the server read past its first byte, or HandlePacket was called with it), or the server consumed an illegal/unexpected WebSocket frame, or a deaf WebSocket peer stayed silent past the transport timeouts; distinct = distinct schedule hashes of such runs.",
 		Real: []string{"internal/stream StreamProcessor.ReadPacket (+buffer pool)", "internal/stream/compression GzipReader", "internal/protocol/adapter BaseAdapter.handleConnection/connectionReadLoop", "internal/protocol/adapter wsServerConn (read deadline, pong handler, ping loop) over github.com/gorilla/websocket",
 			"internal/protocol/session SessionManager.HandlePacket, handshake/tunnel/command/DNS/SOCKS5/traffic handlers", "internal/command CommandExecutor + registry", "internal/app/server auth, tunnel, connection-code, config, mapping, HTTP-domain command handlers", "internal/cloud services on the memory storage backend"},
 		Stub: []string{"transport: simnet link whose server end counts Reads issued after the end of the stream", "peer: harness writing hand-built bytes", "storage faults: simstore wrapper"},
@@ -94,6 +95,7 @@ func init() {
 			"sync.Pool is modelled by a per-run free list that is never emptied by GC, so up to 2 large pooled buffers per run are tolerated by the retention bound",
 			"a oneway/ignored packet may legitimately produce neither an error nor a reply; only crashing, not returning, or over-allocating is flagged for HandlePacket",
 			"live heap is measured as HeapAlloc after two forced GCs (more exact than HeapInuse)",
+			"work is measured as bytes moved in bulk by repository code (copy and append(x, y...) of byte slices/strings, counted by the instrumented build): linear budget 64 per transport byte + 1 MiB per connection, and an 8x larger input of the same shape may move at most 16x as much",
 			"more than 16 failed Reads in a row at one simulated instant without a byte delivered is a retry storm (a retry after a timeout must be able to block again)",
 			"a server that issues more than 16 further Reads after a Read returned EOF/reset/closed is spinning; a task that takes more than ~200k+60/byte scheduler steps without ever blocking is spinning (the second detector needs a fair scheduler and is inactive under a minimised all-zero choice stream)",
 		},
@@ -663,6 +665,7 @@ type c05mon struct {
 	spun      bool
 	delivered int64 // bytes handed to the server so far
 	reads     int
+	moved0    int64 // verifhook.BytesMoved() when the connection was created
 
 	errAt     time.Duration
 	errStreak int
@@ -679,6 +682,44 @@ type c05mon struct {
 	maxDelta  uint64
 	maxFrom   int64 // bytes the server had consumed when the worst interval began
 	maxTo     int64
+}
+
+// Work oracle ("never spins ... on a finite stream", measured without a clock):
+// the bytes the repository code moves in bulk (copy / append of byte slices,
+// counted by the instrumented build: verifhook.BytesMoved) must stay linear in
+// the bytes that crossed the connection. A memmove is a single statement: it
+// shows neither in scheduler steps nor in the allocator, but a decoder whose
+// cost per Read grows with what is still buffered turns one cheap message
+// into minutes of CPU.
+const (
+	// c05MoveFactor x bytes on the wire + c05MoveSlack: linear budget. The
+	// unchanged tree moves at most ~16 bytes per wire byte (typically <= 4).
+	c05MoveFactor = 64
+	c05MoveSlack  = 1 << 20
+)
+
+// c05WorkCheck compares what was moved since the connection was created with
+// the bytes read from and written to its transport (io).
+func c05WorkCheck(w *simrt.World, c *c05mon, io int64, what string) bool {
+	moved := verifhook.BytesMoved() - c.moved0
+	if io < 1 {
+		io = 1
+	}
+	ratio := moved / io
+	bucket := ">64"
+	for _, b := range []int64{4, 16, 64} {
+		if ratio <= b {
+			bucket = fmt.Sprintf("<=%d", b)
+			break
+		}
+	}
+	w.Probe("work." + c.layer + ".moved/byte" + bucket)
+	if moved <= c05MoveFactor*io+c05MoveSlack {
+		return false
+	}
+	w.Violationf("C05:work:budget:"+c.layer, "the server moved %d bytes in bulk (copy/append) for a connection that carried %d bytes in total (read + written): %d per byte, budget %d per byte + %d KiB. Work per byte that grows with the amount buffered makes one finite stream cost quadratic CPU.\n%s",
+		moved, io, ratio, c05MoveFactor, c05MoveSlack>>10, what)
+	return true
 }
 
 // sample closes the current inter-Read interval.
@@ -764,7 +805,7 @@ func c05Connect(w *simrt.World, node *simnode.Node, name, addr string, cfg simne
 	cfg.NameB = name + "@" + node.ID
 	cfg.AddrA = addr
 	a, b := simnet.NewLink(w, cfg)
-	sw := &c05conn{Conn: b, c05mon: c05mon{w: w, layer: layer, timeouts: timeouts}}
+	sw := &c05conn{Conn: b, c05mon: c05mon{w: w, layer: layer, timeouts: timeouts, moved0: verifhook.BytesMoved()}}
 	node.Adapter.Serve(sw)
 	cl := &simnode.Client{W: w, Name: name, Conn: a, Srv: b}
 	cl.SP = stream.NewStreamProcessor(a, a, w.Ctx)
@@ -984,11 +1025,109 @@ func c05Run(w *simrt.World, tier string) {
 	}
 	switch mode {
 	case 0, 1:
+		if c.Intn(32, "cost.probe") == 31 {
+			c05Cost(w)
+			return
+		}
 		c05Decode(w, g)
 	case 2:
 		c05Node(w, g, false)
 	default:
 		c05Node(w, g, true)
+	}
+}
+
+// c05Cost is the cost probe: the same input shape at two sizes (n and 8n bytes)
+// on two fresh connections, decoded by the real ReadPacket over the real
+// transport object; the bulk byte moves of the two decodes are compared.
+// Shape = the densest legal traffic: thousands of minimal packets coalesced
+// into few large transport messages (one-byte heartbeats, empty five-byte
+// packets, one-byte-body packets). Linear decoding moves ~8x as much for 8x
+// the bytes; anything whose cost per Read depends on what is still buffered
+// moves ~64x. The decode loops run with scheduling suppressed (cost does not
+// depend on interleaving, and 70 000 packets would cost millions of steps).
+func c05Cost(w *simrt.World) {
+	c := w.C
+	shape := c.Intn(3, "cost.shape")
+	transport := c.Intn(3, "cost.transport") // 0 websocket, one message; 1 websocket, four messages; 2 plain stream
+	n := []int{8 << 10, 4 << 10, 12 << 10}[c.Intn(3, "cost.n")]
+	bufSize := []int{64 << 10, 4096, 1024}[c.Intn(3, "cost.wsbuf")]
+	unit := [][]byte{{0x03}, {0x00, 0, 0, 0, 0}, {0x22, 0, 0, 0, 1, 0x7f}}[shape]
+	shapeName := []string{"heartbeats", "empty-packets", "one-byte-bodies"}[shape]
+	trName := []string{"ws-1msg", "ws-4msg", "stream"}[transport]
+	w.Sample(fmt.Sprintf("cost probe: %s over %s, %d and %d bytes", shapeName, trName, n, 8*n))
+	w.State("cost/" + shapeName + "/" + trName)
+	w.Probe("mode.cost-probe")
+	var moved, pkts [2]int64
+	for k, size := range []int{n, 8 * n} {
+		data := bytes.Repeat(unit, size/len(unit))
+		var rd net.Conn
+		var closers []func()
+		if transport == 2 {
+			a, b := simnet.NewLink(w, simnet.LinkConfig{NameA: fmt.Sprintf("peer%d", k), NameB: fmt.Sprintf("srv%d", k)})
+			if _, err := a.Write(data); err != nil {
+				w.Violationf("C05:harness", "cost probe write: %v", err)
+				return
+			}
+			a.CloseWrite()
+			rd = b
+			closers = append(closers, func() { a.Close(); b.Close() })
+		} else {
+			cli, srv, a, b, err := c05WSPair(w, simnet.LinkConfig{NameA: fmt.Sprintf("wspeer%d", k), NameB: fmt.Sprintf("wssrv%d", k), AddrA: "10.6.6.6:6666"}, bufSize)
+			if err != nil {
+				w.Violationf("C05:harness", "cost probe websocket handshake: %v", err)
+				return
+			}
+			msgs := 1
+			if transport == 1 {
+				msgs = 4
+			}
+			for i := 0; i < msgs; i++ {
+				if err := cli.WriteMessage(websocket.BinaryMessage, data[i*len(data)/msgs:(i+1)*len(data)/msgs]); err != nil {
+					w.Violationf("C05:harness", "cost probe websocket write: %v", err)
+					return
+				}
+			}
+			cli.WriteControl(websocket.CloseMessage, websocket.FormatCloseMessage(websocket.CloseNormalClosure, ""), time.Now().Add(time.Second))
+			a.CloseWrite()
+			rd = adapter.NewWSServerConnForVerif(srv, "10.6.6.6:6666")
+			closers = append(closers, func() { rd.Close(); a.Close(); b.Close() })
+		}
+		sp := stream.NewStreamProcessor(rd, rd, w.Ctx)
+		m0 := verifhook.BytesMoved()
+		w.Quiet(func() {
+			for {
+				if _, _, err := sp.ReadPacket(); err != nil {
+					return
+				}
+				pkts[k]++
+				if pkts[k] > int64(size) {
+					return
+				}
+			}
+		})
+		moved[k] = verifhook.BytesMoved() - m0
+		sp.Close()
+		for _, f := range closers {
+			f()
+		}
+		if want := int64(size / len(unit)); pkts[k] != want {
+			w.Violationf("C05:decode:cost-probe-count", "%d %s (%d bytes, %s) were sent, ReadPacket decoded %d packets before its first error", want, shapeName, size, trName, pkts[k])
+			return
+		}
+		if moved[k] > c05MoveFactor*int64(size)+c05MoveSlack {
+			w.Violationf("C05:work:budget:cost-"+trName, "decoding %d bytes of %s (%d packets, %s) made the server move %d bytes in bulk (copy/append): %d per input byte, budget %d per byte + %d KiB",
+				size, shapeName, pkts[k], trName, moved[k], moved[k]/int64(size), c05MoveFactor, c05MoveSlack>>10)
+		}
+	}
+	w.Nontrivial()
+	small := moved[0]
+	if small < int64(n) {
+		small = int64(n)
+	}
+	if moved[1] > 16*small+c05MoveSlack {
+		w.Violationf("C05:work:super-linear:cost-"+trName, "%s over %s: decoding %d bytes moved %d bytes in bulk, decoding 8x as many (%d) moved %d = %dx as much (linear: 8x, tolerated: 16x + %d KiB): the cost per byte grows with the size of the message",
+			shapeName, trName, n, moved[0], 8*n, moved[1], moved[1]/small, c05MoveSlack>>10)
 	}
 }
 
@@ -1003,7 +1142,7 @@ func c05Decode(w *simrt.World, g *c05gen) {
 	}
 	a, b := simnet.NewLink(w, simnet.LinkConfig{NameA: "peer", NameB: "srv", LawAB: p.law, CutsAB: p.cuts})
 	w.SetCrashSentinel(c05Sentinel)
-	bw := &c05conn{Conn: b, c05mon: c05mon{w: w, layer: "decode"}}
+	bw := &c05conn{Conn: b, c05mon: c05mon{w: w, layer: "decode", moved0: verifhook.BytesMoved()}}
 	rsp := stream.NewStreamProcessor(bw, bw, w.Ctx)
 	if _, err := a.Write(p.bytes); err != nil {
 		w.Violationf("C05:harness", "peer write failed: %v", err)
@@ -1114,6 +1253,7 @@ func c05Decode(w *simrt.World, g *c05gen) {
 		w.Nontrivial()
 	}
 	rsp.Close()
+	c05WorkCheck(w, &bw.c05mon, b.BytesRead(), w.Res.Sample)
 	if heavy {
 		p.bytes = nil
 		for i := range p.segs {
@@ -1388,6 +1528,7 @@ func c05Node(w *simrt.World, g *c05gen, direct bool) {
 			return
 		}
 		w.Probe("serve.terminated")
+		c05WorkCheck(w, &sw.c05mon, cl.Srv.BytesRead()+cl.Srv.BytesWritten(), w.Res.Sample)
 	}
 	if hostileSeen {
 		w.Nontrivial()
@@ -1576,7 +1717,7 @@ func c05ServeWS(w *simrt.World, node *simnode.Node, p *c05plan, budget int, arm 
 		w.Violationf("C05:harness", "websocket handshake over the simulated link failed: %v", err)
 		return false, false
 	}
-	sw := &c05wsconn{Conn: adapter.NewWSServerConnForVerif(srv, "10.6.6.6:6666"), c05mon: c05mon{w: w, layer: layer}}
+	sw := &c05wsconn{Conn: adapter.NewWSServerConnForVerif(srv, "10.6.6.6:6666"), c05mon: c05mon{w: w, layer: layer, moved0: verifhook.BytesMoved()}}
 	node.Adapter.Serve(sw)
 	arm()
 	srvClosed := func() bool { return b.Conn.Closed() }
@@ -1826,6 +1967,7 @@ loop:
 		return hostileSeen, false
 	}
 	w.Probe("serve-ws.terminated")
+	c05WorkCheck(w, &sw.c05mon, b.Conn.BytesRead()+b.fed+b.Conn.BytesWritten(), w.Res.Sample)
 	return hostileSeen, true
 }
 
